@@ -706,7 +706,8 @@ def p_smap_update(eng, st, name, args, site, depth, call):
 def p_sitem_update(eng, st, name, args, site, depth, call):
     item = _item(eng, st, args[0])
     h = eng.val(st, args[2])
-    return _do_update(eng, st, item, UNIT, args[3], h, site, depth, True)
+    # unlike Item::update, SnapshotItem::update is may_load -> action(Option<T>) -> save (cw-storage-plus 2.0 snapshot/item.rs)
+    return _do_update(eng, st, item, UNIT, args[3], h, site, depth, False)
 
 
 @prim_re(r"^cw_storage_plus::(SnapshotMap|SnapshotItem)::may_load_at_height$")
